@@ -12,6 +12,39 @@
         TWO128, 3.4028236692093842e38 /* prev(2^128) */, 3.4028236692093854e38 /* next(2^128) */, TWO63, TWO64, -TWO63,
         9223372036854774784.0 /* prev(2^63) */, 9007199254740992.0 /* 2^53 */, 9007199254740994.0, 0.5, -0.5, f64::INFINITY, f64::NEG_INFINITY,
     ];
+    // the gate in front of those fallbacks: `as_f64(v, lossy = false)` decides whether == / cmp may compare an integer
+    // through its float image at all. Same contract as C07's as_f64_lossless_* (that unit owns the function); repeated
+    // here under C08's own run because "comparison between integers and floats is exact" stands or falls with it.
+    macro_rules! c08_as_f64_exact {
+        ($name:ident, $t:ty, $lo:expr, $limit:expr) => {
+            #[kani::proof]
+            #[kani::unwind(2)]
+            fn $name() {
+                let x: $t = kani::any();
+                let v = Value::from(x);
+                let r = ops::as_f64(&v, false);
+                if let Some(f) = r {
+                    assert!(f >= $lo && f < $limit);
+                    assert!((f as $t) == x);
+                    assert!(f == f.trunc());
+                }
+                let g = x as f64;
+                if g < $limit && (g as $t) == x { assert!(r.is_some()); }
+                kani::cover!(r.is_some(), "exact");
+                kani::cover!(r.is_none(), "inexact");
+                std::mem::forget(v);
+            }
+        };
+    }
+//# ob name=int_to_float_gate_i128 fn=value::ops::as_f64 kind=complete stmt="as_f64(I128 x, lossy=false) == Some(f) only if f denotes exactly x (no slip at i128::MAX / 2^127), and Some whenever x is exactly representable"
+//# ob name=int_to_float_gate_u128 fn=value::ops::as_f64 kind=complete stmt="as_f64(U128 x, lossy=false) exact or None, never rejecting an exactly representable value (2^127, 2^128 - 2^75)"
+//# ob name=int_to_float_gate_i64 fn=value::ops::as_f64 kind=complete stmt="as_f64(I64 x, lossy=false) exact or None"
+//# ob name=int_to_float_gate_u64 fn=value::ops::as_f64 kind=complete stmt="as_f64(U64 x, lossy=false) exact or None"
+    c08_as_f64_exact!(int_to_float_gate_i128, i128, -TWO127, TWO127);
+    c08_as_f64_exact!(int_to_float_gate_u128, u128, 0.0, TWO128);
+    c08_as_f64_exact!(int_to_float_gate_i64, i64, -TWO63, TWO63);
+    c08_as_f64_exact!(int_to_float_gate_u64, u64, 0.0, TWO64);
+
 //# ob name=cmp_f64_i128_boundary fn=value::cmp_f64_i128 kind=complete stmt="cmp_f64_i128(f, i) is the exact mathematical order for each of 18 boundary floats (+-2^127 and neighbours, 2^128 and neighbours, +-2^63, 2^64, 2^53, +-0.5, +-inf) against EVERY i128"
     #[kani::proof]
     #[kani::unwind(20)]
